@@ -31,6 +31,236 @@ fn strat() -> BoxedStrategy<SimCase> {
     sim_case(&opts())
 }
 
+/// TCP with connection attempts that stay outstanding for many rounds (the channel keeps up to
+/// 256 of them) and handshake answers that arrive in order, out of order and many rounds late.
+fn tcp_table_strat() -> BoxedStrategy<SimCase> {
+    use proptest::prelude::*;
+    (
+        sim_case(&GenOpts {
+            supported_only: true,
+            sending_only: true,
+            protocols: vec![Proto::Tcp],
+            late: true,
+            loss: true,
+            max_hops: 40,
+            long_path_pct: 0,
+            rounds: (15, 50),
+            exts: false,
+            ..GenOpts::default()
+        }),
+        20u64..=300,
+        prop_oneof![2 => Just(0u64), 2 => 1u64..=6, 2 => 5u64..=40],
+        prop_oneof![1 => Just(0u64), 2 => 0u64..=3],
+        12u8..=60,
+    )
+        .prop_map(|(mut c, timeout_rounds, jitter_rounds, delay_rounds, max_ttl)| {
+            let round = c.cfg.max_round_ns.max(c.cfg.min_round_ns).max(1000);
+            c.cfg.tcp_connect_timeout_ns = round.saturating_mul(timeout_rounds);
+            c.cfg.first_ttl = 1;
+            c.cfg.max_ttl = c.cfg.max_ttl.max(max_ttl);
+            c.cfg.max_inflight = c.cfg.max_inflight.max(8);
+            c.world.target.node.jitter_ns = round.saturating_mul(jitter_rounds);
+            c.world.target.node.delay_ns = c.world.target.node.delay_ns.saturating_add(round.saturating_mul(delay_rounds) / 2);
+            c
+        })
+        .boxed()
+}
+
+fn tcp_table_test(c: &SimCase, obs: &mut Obs) -> CheckResult {
+    let log = run_trace(&c.cfg, &c.world);
+    let Some(truth) = c01::check_outcomes(&log, obs)? else {
+        return Ok(());
+    };
+    if let Some(Err(e)) = &log.result {
+        vfail!("run-error", "run failed without any scripted fault: {e}");
+    }
+    let sends = log.sends.iter().filter(|s| s.wire.is_some()).count();
+    let target_answers = truth.rounds.iter().flatten().filter(|e| matches!(e, Expected::Complete { .. })).count();
+    if sends > 256 {
+        obs.class("more-than-256-connects");
+    }
+    if sends > 256 && target_answers > 0 {
+        obs.class("nontrivial");
+        obs.nontrivial(&(c.cfg.cell(), sends / 32, truth.rounds.len(), target_answers / 8, c.world.target.node.jitter_ns / c.cfg.max_round_ns.max(1)));
+    }
+    obs.sample(json!({"cfg": c.cfg.cell(), "connects": sends, "rounds": truth.rounds.len(), "answers_accepted": target_answers}));
+    Ok(())
+}
+
+// ---------------------------------------------------------------------------------------------
+// the TCP half of the statement on the real `Channel`: connection attempts are dispatched, stay
+// outstanding, are answered (connected / refused) at chosen instants in any order, and every
+// answer to a probe that can still belong to the round in progress must be reported, once,
+// with that probe's ports
+
+#[derive(Clone, Debug, Serialize, Deserialize)]
+pub enum ChOp {
+    /// dispatch n probes; each is answered `delay` time units later (None: never)
+    Send { n: u8, delay: Option<u16> },
+    /// let time pass
+    Wait(u16),
+    /// call recv_probe until it has nothing more to report
+    Recv,
+}
+
+#[derive(Clone, Debug, Serialize, Deserialize)]
+pub struct ChCase {
+    pub v6: bool,
+    pub fixed_src: bool,
+    pub refuse: bool,
+    /// connect timeout in time units
+    pub timeout: u32,
+    pub ops: Vec<ChOp>,
+}
+
+fn channel_strat() -> BoxedStrategy<ChCase> {
+    use proptest::prelude::*;
+    let op = prop_oneof![
+        5 => (prop_oneof![3 => 1u8..=30, 1 => 100u8..=254], prop_oneof![3 => Just(None), 2 => (0u16..=40).prop_map(Some), 2 => (0u16..=2000).prop_map(Some)]).prop_map(|(n, delay)| ChOp::Send { n, delay }),
+        2 => prop_oneof![3 => 0u16..=20, 1 => 0u16..=1000].prop_map(ChOp::Wait),
+        3 => Just(ChOp::Recv),
+    ];
+    (any::<bool>(), any::<bool>(), prop::bool::weighted(0.3), prop_oneof![3 => Just(1_000_000u32), 1 => 50u32..=3000], proptest::collection::vec(op, 1..=60))
+        .prop_map(|(v6, fixed_src, refuse, timeout, ops)| ChCase { v6, fixed_src, refuse, timeout, ops })
+        .boxed()
+}
+
+fn channel_test(c: &ChCase, obs: &mut Obs) -> CheckResult {
+    use crate::simnet::world::{self, World};
+    use crate::vclock;
+    use std::time::{Duration, UNIX_EPOCH};
+    use trippy_core::verif::{Channel, Network, ProtocolResponse, Response};
+    use trippy_core::{Flags, Port, Probe, RoundId, Sequence, TimeToLive, TraceId};
+    const UNIT: u64 = 1_000_000;
+    let cfg = TraceCfg {
+        v6: c.v6,
+        protocol: Proto::Tcp,
+        strategy: Strat::Classic,
+        ports: if c.fixed_src { Ports::FixedSrc(5000) } else { Ports::FixedDest(80) },
+        read_timeout_ns: UNIT / 10,
+        tcp_connect_timeout_ns: u64::from(c.timeout) * UNIT,
+        ..TraceCfg::default()
+    };
+    let mut spec = WorldSpec::simple(0);
+    spec.target.kind = if c.refuse { TargetKind::Refuse } else { TargetKind::Normal };
+    vclock::enable(crate::simnet::run::START_NS);
+    world::install(World::new(cfg.clone(), spec));
+    struct Guard;
+    impl Drop for Guard {
+        fn drop(&mut self) {
+            let _ = crate::simnet::world::take();
+            crate::vclock::disable();
+        }
+    }
+    let _g = Guard;
+    let mut ch = match catch(|| Channel::<SimSocket>::connect(&super::c04::channel_config(&cfg))) {
+        Ok(Ok(ch)) => ch,
+        Ok(Err(e)) => vfail!("connect", "Channel::connect failed: {e}"),
+        Err(p) => vfail!(panic_sig(&p), "Channel::connect panicked: {p}"),
+    };
+    // model: every probe dispatched, in order: (sequence, due instant, dispatched at, reported)
+    struct Ent {
+        seq: u16,
+        due: Option<u64>,
+        start: u64,
+        reported: bool,
+    }
+    let mut all: Vec<Ent> = vec![];
+    let mut seq = 33434u16;
+    let (mut reported_n, mut max_outstanding, mut out_of_order) = (0usize, 0usize, false);
+    let timeout_ns = u64::from(c.timeout) * UNIT;
+    for (i, op) in c.ops.iter().enumerate() {
+        match *op {
+            ChOp::Send { n, delay } => {
+                for _ in 0..n {
+                    let now = vclock::now_ns();
+                    world::with(|w| w.spec.target.node.delay_ns = delay.map_or(u64::MAX / 4, |d| u64::from(d) * UNIT));
+                    let (src_port, dest_port) = if c.fixed_src { (5000, seq) } else { (seq, 80) };
+                    let probe = Probe {
+                        sequence: Sequence(seq),
+                        identifier: TraceId(0),
+                        src_port: Port(src_port),
+                        dest_port: Port(dest_port),
+                        ttl: TimeToLive(64),
+                        round: RoundId(0),
+                        sent: UNIX_EPOCH + Duration::from_nanos(now),
+                        flags: Flags::empty(),
+                    };
+                    match catch(|| ch.send_probe(probe)) {
+                        Ok(Ok(())) => {}
+                        Ok(Err(e)) => vfail!("dispatch-error", "step {i}: dispatching sequence {seq} failed: {e}"),
+                        Err(p) => vfail!(panic_sig(&p), "step {i}: dispatching sequence {seq} panicked: {p}"),
+                    }
+                    all.push(Ent { seq, due: delay.map(|d| now + u64::from(d) * UNIT), start: now, reported: false });
+                    seq = seq.wrapping_add(1);
+                    if seq < 1024 {
+                        seq = 1024;
+                    }
+                }
+                let now = vclock::now_ns();
+                max_outstanding = max_outstanding.max(all.iter().filter(|e| !e.reported && now - e.start < timeout_ns).count());
+            }
+            ChOp::Wait(u) => vclock::advance(u64::from(u) * UNIT),
+            ChOp::Recv => {
+                let at = vclock::now_ns();
+                let mut got: Vec<u16> = vec![];
+                for _ in 0..600 {
+                    let r = match catch(|| ch.recv_probe()) {
+                        Ok(Ok(r)) => r,
+                        Ok(Err(e)) => vfail!("recv-error", "step {i}: recv_probe failed: {e}"),
+                        Err(p) => vfail!(panic_sig(&p), "step {i}: recv_probe panicked: {p}"),
+                    };
+                    let Some(resp) = r else { break };
+                    let (kind_ok, data) = match &resp {
+                        Response::TcpReply(d) => (!c.refuse, d),
+                        Response::TcpRefused(d) => (c.refuse, d),
+                        other => vfail!("unexpected-response", "step {i}: recv_probe returned {other:?}"),
+                    };
+                    let ProtocolResponse::Tcp(t) = &data.proto_resp else { vfail!("unexpected-response", "step {i}: TCP response without TCP data: {resp:?}") };
+                    let s = if c.fixed_src { t.dest_port } else { t.src_port };
+                    let fixed_ok = if c.fixed_src { t.src_port == 5000 } else { t.dest_port == 80 };
+                    vensure!(kind_ok && fixed_ok, "wrong-response", "step {i}: target {} but recv_probe returned {resp:?}", if c.refuse { "refuses" } else { "accepts" });
+                    let Some(e) = all.iter_mut().rev().find(|e| e.seq == s) else { vfail!("unknown-probe", "step {i}: response names ports of no dispatched probe: {resp:?}") };
+                    vensure!(!e.reported, "reported-twice", "step {i}: the answer to sequence {s} was reported twice");
+                    vensure!(e.due.is_some_and(|d| d <= vclock::now_ns()), "answer-before-due", "step {i}: sequence {s} reported although the target has not answered it yet");
+                    e.reported = true;
+                    got.push(s);
+                }
+                reported_n += got.len();
+                if got.windows(2).any(|w| w[0] > w[1]) {
+                    out_of_order = true;
+                }
+                // every probe among the newest 254 (a round has at most 254 connection attempts, so
+                // these may belong to the round in progress) whose answer was due when the call
+                // sequence began, and whose connect timeout had not run out, must have been reported
+                let n = all.len();
+                for e in all.iter().skip(n.saturating_sub(254)) {
+                    if !e.reported && e.due.is_some_and(|d| d <= at) && vclock::now_ns() - e.start < timeout_ns {
+                        vfail!(
+                            "answer-not-recognised",
+                            "step {i}: the target answered the connection attempt with sequence {} ({} probes dispatched later), the attempt has not timed out, but recv_probe reports nothing for it",
+                            e.seq,
+                            all.iter().filter(|x| x.start > e.start || (x.start == e.start && x.seq > e.seq)).count()
+                        );
+                    }
+                }
+            }
+        }
+    }
+    if max_outstanding >= 256 {
+        obs.class("table-full");
+    }
+    if out_of_order {
+        obs.class("answers-out-of-dispatch-order");
+    }
+    if reported_n > 0 && max_outstanding >= 200 {
+        obs.class("nontrivial");
+        obs.nontrivial(&(c.v6, c.fixed_src, c.refuse, max_outstanding / 16, reported_n / 8, out_of_order, c.ops.len()));
+    }
+    obs.sample(json!({"v6": c.v6, "ops": c.ops.len(), "dispatched": all.len(), "reported": reported_n, "max_outstanding": max_outstanding}));
+    Ok(())
+}
+
 fn quote_class(q: Quote) -> &'static str {
     match q {
         Quote::Min => "min",
@@ -253,6 +483,22 @@ pub fn check() -> PropertyCheck {
                 strat,
                 test,
                 max_shrink: 3000,
+            }),
+            Box::new(Pbt {
+                name: "tcp-channel",
+                quick: 20_000,
+                thorough: 1_000_000,
+                strat: channel_strat,
+                test: channel_test,
+                max_shrink: 3000,
+            }),
+            Box::new(Pbt {
+                name: "tcp-table",
+                quick: 600,
+                thorough: 300_000,
+                strat: tcp_table_strat,
+                test: tcp_table_test,
+                max_shrink: 2000,
             }),
             Box::new(Enumerated {
                 name: "sequence-sweep",
